@@ -17,6 +17,12 @@ A unit file (verus/units/*.vunit) is a list of sections:
   #subst-re <regex> => <repl>  -- same with a regular expression (used for `String::from_utf8_lossy(X).to_string()`
                              -- -> `lossy_string(X)`, a trusted wrapper whose body is that very expression)
   #gsubst <old> => <new> / #gsubst-re <regex> => <repl>   -- the same, applied to every #fn and #item that follows
+  #attr <attribute>          -- a Verus attribute line placed above the function (e.g. #[verifier::loop_isolation(false)])
+  #deasync                   -- the function is an `async fn`: the `async` keyword and every `.await` are dropped, so the body
+                             -- is read as the sequential code one task executes (awaited callees are opaque calls); what
+                             -- this loses: interleaving with other tasks at the await points
+  #cut-after <stripped body line>  -- only the body up to and including that line is kept (open blocks are closed);
+                             -- used to put the first statements of a long async handler under contract
   #loop-invariant <stripped `while`/`for` line>   -- invariant/decreases clauses inserted between loop head and `{`
   #drop-macro <name> [<name>..]  -- statements `<name>!( .. );` (tracing macros) are removed from the body
   #subst <old> => <new>      -- every occurrence of the token sequence <old> in the body is redirected to <new>
@@ -169,6 +175,12 @@ def parse_unit(path):
                 cur_fn = {"anchor": arg, "ret": None, "clauses": [], "hints": [], "loops": [], "source": unit["source"],
                           "subst": list(gsub), "subst_re": list(gsub_re)}
                 unit["items"].append(("fn", cur_fn))
+            elif d == "attr":
+                cur_fn.setdefault("attrs", []).append(arg)
+            elif d == "deasync":
+                cur_fn["deasync"] = True
+            elif d == "cut-after":
+                cur_fn["cut_after"] = arg
             elif d == "scope":
                 cur_fn["scope"] = arg
             elif d == "ret":
@@ -252,6 +264,21 @@ def assemble(unit, repo):
                 sig_v = sig_s[: m.start()] + "-> (%s: %s)" % (val["ret"], m.group(1).strip())
             else:
                 sig_v = sig_s
+            shape = {}
+            if val.get("deasync"):
+                sig_v, n1 = re.subn(r"\basync fn\b", "fn", sig_v)
+                body, n2 = re.subn(r"\s*\.await\b", "", body)
+                shape["deasync"] = {"async_keywords_dropped": n1, "awaits_dropped": n2}
+            if val.get("cut_after"):
+                bl = body.split("\n")
+                hits = [k for k, l in enumerate(bl) if l.strip() == val["cut_after"]]
+                if len(hits) != 1:
+                    raise LostAnchor("cut anchor %r matches %d lines in %s" % (val["cut_after"], len(hits), val["anchor"]))
+                kept = "\n".join(bl[: hits[0] + 1])
+                stripped = re.sub(r'"(\\.|[^"\\])*"|//[^\n]*', "", kept)
+                depth = stripped.count("{") - stripped.count("}")
+                shape["cut_after"] = {"line": val["cut_after"], "body_lines_kept": hits[0] + 1, "body_lines_dropped": len(bl) - hits[0] - 1}
+                body = kept + "\n" + "}" * depth
             # (0) drop logging-macro statements (Verus does not expand tracing macros); each dropped
             #     statement is recorded in the extraction report
             dropped = []
@@ -316,6 +343,7 @@ def assemble(unit, repo):
                 body_lines[k] = l.rstrip()[:-1].rstrip()
                 body_lines[k + 1:k + 1] = text + ["{"]
             # sha of the body with inserted ghost lines removed again == sha of real body (self-check)
+            out.extend(val.get("attrs", []))
             out.append(sig_v)
             if clauses.strip():
                 out.append(clauses)
@@ -325,6 +353,6 @@ def assemble(unit, repo):
                            "byte_range": [a, b], "sha256_real_text": real_sha,
                            "ghost_hints": len(val["hints"]), "loop_invariants": len(val["loops"]),
                            "dropped_macro_statements": dropped, "substitutions": substituted,
-                           "lost_ghost_anchors": lost})
+                           "shape_changes": shape, "lost_ghost_anchors": lost})
     out += ["", "} // verus!", "fn main() {}", ""]
     return "\n".join(out), report
